@@ -208,12 +208,13 @@ Definition oracle (c : case) : bool :=
 
 (* the pool model on a recorded sequence: what the acting user sees after each operation
    (C08_byteslicepool_exact: independent of sync.Pool's choices as long as nobody shrinks) *)
-Definition bev_of (o : pop) : bevent :=
+Definition bev_of (o : pop) : list bevent :=
   match o with
-  | PGet u c => BGet (Z.to_nat u) (Z.to_nat c) None
-  | PAppend u d => BAppend (Z.to_nat u) d
-  | PResize u n => BResize (Z.to_nat u) (Z.to_nat n)
-  | PPut u => BPut (Z.to_nat u)
+  | PGet u c => [BGet (Z.to_nat u) (Z.to_nat c) None]
+  | PAppend u d => [BAppend (Z.to_nat u) d]
+  | PResize u n => [BResize (Z.to_nat u) (Z.to_nat n)]
+  | PPut u => [BPut (Z.to_nat u)]
+  | PCheck _ => []
   end.
 
 Fixpoint pool_seq_model (pre : list bevent) (ops : list pop) : list (list N) * bool :=
@@ -222,7 +223,7 @@ Fixpoint pool_seq_model (pre : list bevent) (ops : list pop) : list (list N) * b
   | o :: ops' =>
       let u := Z.to_nat (user_of o) in
       let before := appended u pre [] in
-      let pre' := pre ++ [bev_of o] in
+      let pre' := pre ++ bev_of o in
       let shrink := match o with PResize _ n => (Z.to_nat n <? length before) | _ => false end in
       let '(rest, sh) := pool_seq_model pre' ops' in
       (appended u pre' [] :: rest, shrink || sh)
@@ -276,6 +277,6 @@ Example reg_model_ex : reg_model [5; 7; 5; 9; 7]%Z = [0; 1; 0; 2; 1]%Z.
 Proof. vm_compute. reflexivity. Qed.
 
 Example pool_seq_ex :
-  pool_seq_model [] [PGet 1 8; PAppend 1 [17; 18]%N; PPut 1; PGet 2 0; PResize 2 3; PAppend 2 [33]%N]
-  = ([[]; [17; 18]; []; []; [0; 0; 0]; [0; 0; 0; 33]]%N, false).
+  pool_seq_model [] [PGet 1 8; PAppend 1 [17; 18]%N; PPut 1; PGet 2 0; PResize 2 3; PAppend 2 [33]%N; PGet 1 0; PCheck 2]
+  = ([[]; [17; 18]; []; []; [0; 0; 0]; [0; 0; 0; 33]; []; [0; 0; 0; 33]]%N, false).
 Proof. vm_compute. reflexivity. Qed.
